@@ -1,6 +1,7 @@
-/- Driver ops for Snake.  Ops: snake.state, snake.step, snake.judge, snake.instance -/
+/- Driver ops for Snake.  Ops: snake.state, snake.step, snake.judge, snake.instance, snake.bounds -/
 import JumanjiModel.Bridge.Json
 import JumanjiModel.Env.Snake.Model
+import JumanjiModel.Env.Snake.Bounds
 import JumanjiModel.Prim.Float
 open Lean Jb
 
@@ -108,6 +109,12 @@ def opInstance : Op := fun j => do
               ("fruit_not_head", jBool (decide (s.fruit ≠ s.head) && decide (inGrid cfg s.fruit.row s.fruit.col)
                                         && decide (inGrid cfg s.head.row s.head.col)))])
 
+/-- {cfg} → {leaf path: {"lo": rat|null, "hi": rat|null}}: the proved value bounds `obsBounds cfg` (C01) -/
+def opBounds : Op := fun j => do
+  let (cfg, _) ← getCfg j
+  let jo : Option Rat → Json := fun o => match o with | none => .null | some r => jRat r
+  pure (jObj ((obsBounds cfg).map (fun (k, lo, hi) => (k, jObj [("lo", jo lo), ("hi", jo hi)]))))
+
 def ops : List (String × Op) :=
-  [("snake.state", opState), ("snake.step", opStep), ("snake.judge", opJudge), ("snake.instance", opInstance)]
+  [("snake.bounds", opBounds), ("snake.state", opState), ("snake.step", opStep), ("snake.judge", opJudge), ("snake.instance", opInstance)]
 end Jb.Snake
